@@ -12,8 +12,11 @@
                                empty          Message{}
                              → `ok`
     st <action>              decRead | decFinish | handReq | handRes |
-                             decAbort (leave the hand-off silently) |
-                             decAbortClose (decodeErr = ctx.Err(); close(decodeDone); leave) |
+                             decAbort (leave the hand-off silently: `St.Act.decAbort false`) |
+                             decAbortClose (decodeErr = ctx.Err(); close(decodeDone); leave:
+                                            `St.Act.decAbort true`) |
+                               — the model allows only the one of the two that the source has
+                                 (`Skeleton.current.stAbortClosesDone`); the other is `rejected`
                              readDoneReq | readDoneRes | exitReq | exitRes | ctxCancel
                              → `ok`, or `rejected <line>` if the model does not allow the step
     st state                 → `gotReq=[1, 2] gotRes=[] dec=handReq(3,-) reqEnd=- resEnd=err@4`
